@@ -851,7 +851,7 @@ def cases(tier, seed):
             for r in (1, 2, 3):
                 if fam == 'rank1s' and r > 1 or d >= 500 and r == 3 and not big:
                     continue
-                if d == 3000 and (r > 2 or fam in ('int', 'rot') or (r == 2 and fam != 'pos')):
+                if d == 3000 and (r > 1 or fam in ('int', 'rot')):
                     continue
                 for pi, prof in enumerate(NEWPROF):
                     if prof == 'alt2' and d > 500:
